@@ -100,11 +100,11 @@ let show_out (o : c_out) : string =
 let show_log s =
   String.concat "," (List.rev_map (fun (((tid, _), _), o) -> string_of_int (int_of_nat tid) ^ ":" ^ show_out o) (cs_log s))
 
-let run_case nkeys s0 sched =
+let run_case md nkeys s0 sched =
   let buf = Buffer.create 256 in
   let s = ref s0 in
   List.iteri (fun i it ->
-      let (s1, ev) = cs_step cfg !s it in
+      let (s1, ev) = cs_step md cfg !s it in
       if i > 0 then Buffer.add_char buf ';';
       Buffer.add_string buf (show_obs nkeys s1 ev);
       s := s1) sched;
@@ -115,7 +115,7 @@ let run_case nkeys s0 sched =
     let progressed = ref false in
     for i = 0 to nthreads !s - 1 do
       if enabled !s i then begin
-        let (s1, ev) = cs_step cfg !s (CsRun (nat_of_int i)) in
+        let (s1, ev) = cs_step md cfg !s (CsRun (nat_of_int i)) in
         if not !first then Buffer.add_char fin ';';
         first := false;
         Buffer.add_string fin (string_of_int i ^ ":" ^ show_obs nkeys s1 ev);
@@ -137,25 +137,25 @@ let item_str = function CsRun i -> string_of_int (int_of_nat i) | CsTick dt -> "
 let sched_str l = String.concat "," (List.map item_str l)
 
 (* all maximal interleavings (DFS), at most max; with ticks = (dt, n): up to n ticks of dt anywhere *)
-let enum_all s0 max ticks =
+let enum_all md s0 max ticks =
   let out = ref [] and cnt = ref 0 in
   let (dt, nt) = ticks in
   let rec go s path left =
     if !cnt < max then begin
       (match enabled_list s with
        | [] -> out := List.rev path :: !out; incr cnt
-       | en -> List.iter (fun i -> let it = CsRun (nat_of_int i) in go (fst (cs_step cfg s it)) (it :: path) left) en);
+       | en -> List.iter (fun i -> let it = CsRun (nat_of_int i) in go (fst (cs_step md cfg s it)) (it :: path) left) en);
       if left > 0 && enabled_list s <> [] then begin
         let it = CsTick (zi dt) in
         (* a tick directly after a tick is covered by left-1 ticks of the double size: skip *)
-        (match path with CsTick _ :: _ -> () | _ -> go (fst (cs_step cfg s it)) (it :: path) (left - 1))
+        (match path with CsTick _ :: _ -> () | _ -> go (fst (cs_step md cfg s it)) (it :: path) (left - 1))
       end
     end in
   go s0 [] nt;
   List.rev !out
 
 (* one schedule per (reachable memory/pc state, thread) edge incl. disabled steps *)
-let enum_edges s0 max =
+let enum_edges md s0 max =
   let seen = Hashtbl.create 1024 in
   let queue = Queue.create () in
   let out = ref [] and cnt = ref 0 in
@@ -169,7 +169,7 @@ let enum_edges s0 max =
           out := List.rev (CsRun (nat_of_int i) :: path) :: !out; incr cnt end) (List.init (nthreads s) (fun i -> i));
     List.iter (fun i ->
         let it = CsRun (nat_of_int i) in
-        let s1 = fst (cs_step cfg s it) in
+        let s1 = fst (cs_step md cfg s it) in
         let p1 = it :: path in
         if !cnt < max then begin out := List.rev p1 :: !out; incr cnt end;
         let k = state_key s1 in
@@ -178,14 +178,16 @@ let enum_edges s0 max =
   (List.rev !out, Hashtbl.length seen)
 
 let b2s b = if b then "1" else "0"
+let mode_of m = if get m "order" = "orig" then CsOrig else CsFixed
 
 let () =
   Registry.register "c04s" (fun toks ->
       let m = kv toks in
       let nkeys = if get m "keys" = "" then 1 else ios (get m "keys") in
       let s0 = cs_init_on (init_mem (get m "init")) (parse_progs (get m "progs")) in
-      let (s1, tr) = run_case nkeys s0 (parse_sched (get m "sched")) in
+      let (s1, tr) = run_case (mode_of m) nkeys s0 (parse_sched (get m "sched")) in
       Printf.sprintf "%s | bad=%s mis=%s log=%s" tr (b2s (cs_bad s1)) (b2s (cs_mis s1)) (show_log s1));
+  (* [order=orig] selects the step order of the code before commit 4caabe5 *)
   (* c04senum mode=all|edges max=N [tick=dt:n] init=.. progs=..  ->  states=<n> scheds=s1;s2;... *)
   Registry.register "c04senum" (fun toks ->
       let m = kv toks in
@@ -193,8 +195,8 @@ let () =
       let s0 = cs_init_on (init_mem (get m "init")) (parse_progs (get m "progs")) in
       if get m "mode" = "all" then
         let ticks = match split_ne ':' (get m "tick") with [a; b] -> (ios a, ios b) | _ -> (0, 0) in
-        let l = enum_all s0 max ticks in
+        let l = enum_all (mode_of m) s0 max ticks in
         "states=0 scheds=" ^ String.concat ";" (List.map sched_str l)
       else
-        let (l, n) = enum_edges s0 max in
+        let (l, n) = enum_edges (mode_of m) s0 max in
         Printf.sprintf "states=%d scheds=%s" n (String.concat ";" (List.map sched_str l)))
